@@ -4,12 +4,422 @@
 import ASV.Spec.Bases
 namespace ASV
 
-theorem getDistance_simple_line (a b : Part) (ha : a.lo < a.hi) (hb : b.lo < b.hi) :
-    getDistance (.simple a) (.simple b) 0 = lineGap a b := by
-  simp only [getDistance, locationsOverlap, Loc.parts, List.any_cons, List.any_nil, Bool.or_false,
-    partsOverlap, Part.mem, distVariants, iabs, Loc.start, Loc.end, lineGap]
+
+theorem Part.mem_iff (p : Part) (i : Int) : p.mem i = true ↔ p.lo ≤ i ∧ i < p.hi := by
+  simp [Part.mem]
+
+theorem partsOverlap_iff (p q : Part) (hp : p.lo < p.hi) (hq : q.lo < q.hi) :
+    partsOverlap p q = true ↔ p.SharesBase q := by
+  unfold Part.SharesBase
+  simp only [partsOverlap, Bool.or_eq_true, Part.mem_iff]
+  constructor
+  · intro h
+    rcases h with ((h | h) | h) | h
+    · exact ⟨p.lo, by omega, by omega⟩
+    · exact ⟨p.hi - 1, by omega, by omega⟩
+    · exact ⟨q.lo, by omega, by omega⟩
+    · exact ⟨q.hi - 1, by omega, by omega⟩
+  · rintro ⟨i, h1, h2⟩
+    omega
+
+theorem partsOverlap_comm (p q : Part) : partsOverlap p q = partsOverlap q p := by
+  simp only [partsOverlap]
+  cases h1 : q.mem p.lo <;> cases h2 : q.mem (p.hi - 1) <;> cases h3 : p.mem q.lo <;> cases h4 : p.mem (q.hi - 1) <;> rfl
+
+def Loc.PartsNonEmpty (l : Loc) : Prop := ∀ p ∈ l.parts, p.lo < p.hi
+
+theorem locationsOverlap_iff (a b : Loc) (ha : a.PartsNonEmpty) (hb : b.PartsNonEmpty) :
+    locationsOverlap a b = true ↔ a.SharesBase b := by
+  unfold Loc.SharesBase
+  simp only [locationsOverlap, List.any_eq_true, Loc.mem]
+  constructor
+  · rintro ⟨p, hp, q, hq, h⟩
+    obtain ⟨i, h1, h2⟩ := (partsOverlap_iff p q (ha p hp) (hb q hq)).1 h
+    exact ⟨i, ⟨p, hp, h1⟩, ⟨q, hq, h2⟩⟩
+  · rintro ⟨i, ⟨p, hp, h1⟩, ⟨q, hq, h2⟩⟩
+    exact ⟨p, hp, q, hq, (partsOverlap_iff p q (ha p hp) (hb q hq)).2 ⟨i, h1, h2⟩⟩
+
+theorem locationsOverlap_comm (a b : Loc) : locationsOverlap a b = locationsOverlap b a := by
+  simp only [locationsOverlap]
+  rw [Bool.eq_iff_iff]
+  simp only [List.any_eq_true]
+  constructor
+  · rintro ⟨p, hp, q, hq, h⟩; exact ⟨q, hq, p, hp, by rw [partsOverlap_comm]; exact h⟩
+  · rintro ⟨p, hp, q, hq, h⟩; exact ⟨q, hq, p, hp, by rw [partsOverlap_comm]; exact h⟩
+
+
+
+/-- the property's wording: each part of the inner lies inside one part of the outer -/
+theorem contains_iff_parts (outer inner : Loc) (hw : ∀ q ∈ inner.parts, q.lo ≤ q.hi) :
+    locationContainsOther outer inner = true ↔
+      ∀ q ∈ inner.parts, ∃ p ∈ outer.parts, p.lo ≤ q.lo ∧ q.hi ≤ p.hi := by
+  simp only [locationContainsOther, List.all_eq_true, List.any_eq_true, partContains,
+    Bool.and_eq_true, decide_eq_true_eq]
+  constructor
+  · intro h q hq
+    obtain ⟨p, hp, h1⟩ := h q hq
+    exact ⟨p, hp, h1.1.1, h1.2⟩
+  · intro h q hq
+    obtain ⟨p, hp, h1, h2⟩ := h q hq
+    exact ⟨p, hp, ⟨h1, hw q hq⟩, h2⟩
+
+theorem contains_subset (outer inner : Loc) (h : locationContainsOther outer inner = true) :
+    ∀ i, inner.mem i = true → outer.mem i = true := by
+  intro i hi
+  simp only [locationContainsOther, List.all_eq_true, List.any_eq_true, partContains,
+    Bool.and_eq_true, decide_eq_true_eq] at h
+  simp only [Loc.mem, List.any_eq_true, Part.mem_iff] at hi ⊢
+  obtain ⟨q, hq, h1, h2⟩ := hi
+  obtain ⟨p, hp, h3⟩ := h q hq
+  exact ⟨p, hp, by omega, by omega⟩
+
+
+def Part.OK (L : Int) (p : Part) : Prop := 0 ≤ p.lo ∧ p.lo < p.hi ∧ (L ≠ 0 → p.hi ≤ L)
+theorem iabs_def (x : Int) : iabs x = if x < 0 then -x else x := rfl
+
+theorem ring_variants_before (L a1 a2 b1 b2 : Int) (h0 : 0 ≤ a1) (h1 : a1 < a2) (h2 : a2 ≤ b1) (h3 : b1 < b2) (h4 : b2 ≤ L) :
+    min (min (iabs (a1 - b2 + L)) (iabs (a2 - b1 + L))) (min (iabs (b1 - a2 + L)) (iabs (b2 - a1 + L))) = a1 + L - b2 := by
+  simp only [iabs_def, Int.min_def]
+  grind
+
+theorem line_variants_before (a1 a2 b1 b2 : Int) (h1 : a1 < a2) (h2 : a2 ≤ b1) (h3 : b1 < b2) :
+    min (min (iabs (a1 - b2 + 0)) (iabs (a2 - b1 + 0))) (min (iabs (b1 - a2 + 0)) (iabs (b2 - a1 + 0))) = b1 - a2 := by
+  simp only [iabs_def, Int.min_def]
+  grind
+
+theorem ring_variants_after (L a1 a2 b1 b2 : Int) (h0 : 0 ≤ b1) (h1 : b1 < b2) (h2 : b2 ≤ a1) (h3 : a1 < a2) (h4 : a2 ≤ L) :
+    min (min (iabs (a1 - b2 + L)) (iabs (a2 - b1 + L))) (min (iabs (b1 - a2 + L)) (iabs (b2 - a1 + L))) = b1 + L - a2 := by
+  simp only [iabs_def, Int.min_def]
+  grind
+
+theorem line_variants_after (a1 a2 b1 b2 : Int) (h1 : b1 < b2) (h2 : b2 ≤ a1) (h3 : a1 < a2) :
+    min (min (iabs (a1 - b2 + 0)) (iabs (a2 - b1 + 0))) (min (iabs (b1 - a2 + 0)) (iabs (b2 - a1 + 0))) = a1 - b2 := by
+  simp only [iabs_def, Int.min_def]
+  grind
+
+theorem partDistance_eq_spec (L : Int) (p q : Part) (hp : p.OK L) (hq : q.OK L)
+    (hno : partsOverlap p q = false) : partDistance p q L = specPartDist L p q := by
+  obtain ⟨hp0, hp1, hp2⟩ := hp
+  obtain ⟨hq0, hq1, hq2⟩ := hq
+  have hdis : p.hi ≤ q.lo ∨ q.hi ≤ p.lo := by
+    simp only [partsOverlap, Part.mem, Bool.or_eq_false_iff, Bool.and_eq_false_iff, decide_eq_false_iff_not] at hno
+    omega
+  simp only [partDistance, hno, Bool.false_eq_true, if_false, simpleDistance, distVariants, Loc.start, Loc.end, specPartDist, lineGap]
+  by_cases h0 : L = 0
+  · subst h0
+    simp only [if_true]
+    rcases hdis with hd | hd
+    · rw [line_variants_before _ _ _ _ hp1 hd hq1]; simp [hd]
+    · rw [line_variants_after _ _ _ _ hq1 hd hp1]
+      have : ¬ p.hi ≤ q.lo := by omega
+      simp [this, hd]
+  · simp only [h0, if_false]
+    have hpL := hp2 h0
+    have hqL := hq2 h0
+    rcases hdis with hd | hd
+    · rw [ring_variants_before L _ _ _ _ hp0 hp1 hd hq1 hqL, line_variants_before _ _ _ _ hp1 hd hq1]
+      rw [Int.emod_eq_of_lt (by omega) (by omega)]
+      simp only [hd, if_true]
+      rw [Int.min_comm]
+    · rw [ring_variants_after L _ _ _ _ hq0 hq1 hd hp1 hpL, line_variants_after _ _ _ _ hq1 hd hp1]
+      rw [Int.emod_eq_of_lt (by omega) (by omega)]
+      have : ¬ p.hi ≤ q.lo := by omega
+      simp only [this, hd, if_false, if_true]
+      rw [Int.min_comm]
+
+
+theorem between_lower (L : Int) (p q : Part) (hp : p.OK L) (hq : q.OK L)
+    (hdis : p.hi ≤ q.lo ∨ q.hi ≤ p.lo) (i j : Int) (hi : p.mem i = true) (hj : q.mem j = true) :
+    specPartDist L p q ≤ between L i j := by
+  obtain ⟨hp0, hp1, hp2⟩ := hp
+  obtain ⟨hq0, hq1, hq2⟩ := hq
+  rw [Part.mem_iff] at hi hj
+  simp only [specPartDist, between, lineBetween, ringBetween, lineGap, iabs_def, Int.min_def]
+  by_cases h0 : L = 0
+  · simp only [h0, if_true]; grind
+  · have := hp2 h0; have := hq2 h0
+    simp only [h0, if_false]; grind
+
+theorem between_attained (L : Int) (p q : Part) (hp : p.OK L) (hq : q.OK L)
+    (hdis : p.hi ≤ q.lo ∨ q.hi ≤ p.lo) :
+    ∃ i j, p.mem i = true ∧ q.mem j = true ∧ between L i j = specPartDist L p q := by
+  obtain ⟨hp0, hp1, hp2⟩ := hp
+  obtain ⟨hq0, hq1, hq2⟩ := hq
+  simp only [Part.mem_iff]
+  by_cases h0 : L = 0
+  · rcases hdis with hd | hd
+    · refine ⟨p.hi - 1, q.lo, ⟨by omega, by omega⟩, ⟨by omega, by omega⟩, ?_⟩
+      simp only [specPartDist, between, lineBetween, lineGap, iabs_def, h0, if_true]; grind
+    · refine ⟨p.lo, q.hi - 1, ⟨by omega, by omega⟩, ⟨by omega, by omega⟩, ?_⟩
+      simp only [specPartDist, between, lineBetween, lineGap, iabs_def, h0, if_true]; grind
+  · have := hp2 h0; have := hq2 h0
+    rcases hdis with hd | hd
+    · by_cases hc : q.lo - p.hi ≤ p.lo + L - q.hi
+      · refine ⟨p.hi - 1, q.lo, ⟨by omega, by omega⟩, ⟨by omega, by omega⟩, ?_⟩
+        simp only [specPartDist, between, ringBetween, iabs_def, h0, if_false, Int.min_def]; grind
+      · refine ⟨p.lo, q.hi - 1, ⟨by omega, by omega⟩, ⟨by omega, by omega⟩, ?_⟩
+        simp only [specPartDist, between, ringBetween, iabs_def, h0, if_false, Int.min_def]; grind
+    · by_cases hc : p.lo - q.hi ≤ q.lo + L - p.hi
+      · refine ⟨p.lo, q.hi - 1, ⟨by omega, by omega⟩, ⟨by omega, by omega⟩, ?_⟩
+        simp only [specPartDist, between, ringBetween, iabs_def, h0, if_false, Int.min_def]; grind
+      · refine ⟨p.hi - 1, q.lo, ⟨by omega, by omega⟩, ⟨by omega, by omega⟩, ?_⟩
+        simp only [specPartDist, between, ringBetween, iabs_def, h0, if_false, Int.min_def]; grind
+
+
+
+theorem foldl_min_le_init (l : List Int) (x : Int) : l.foldl min x ≤ x := by
+  induction l generalizing x with
+  | nil => simp
+  | cons y ys ih => simp only [List.foldl_cons]; exact Int.le_trans (ih _) (Int.min_le_left _ _)
+
+theorem foldl_min_le_mem (l : List Int) (x y : Int) (hy : y ∈ l) : l.foldl min x ≤ y := by
+  induction l generalizing x with
+  | nil => cases hy
+  | cons z zs ih =>
+    simp only [List.foldl_cons]
+    rcases List.mem_cons.1 hy with rfl | h
+    · exact Int.le_trans (foldl_min_le_init _ _) (Int.min_le_right _ _)
+    · exact ih _ h
+
+theorem foldl_min_mem (l : List Int) (x : Int) : l.foldl min x = x ∨ l.foldl min x ∈ l := by
+  induction l generalizing x with
+  | nil => simp
+  | cons z zs ih =>
+    simp only [List.foldl_cons]
+    rcases ih (min x z) with h | h
+    · rw [h]
+      rcases Int.le_total x z with hxz | hxz
+      · left; exact Int.min_eq_left hxz
+      · right; rw [Int.min_eq_right hxz]; simp
+    · right; exact List.mem_cons_of_mem _ h
+
+theorem minList_le_of_mem {l : List Int} {y : Int} (hy : y ∈ l) : minList l ≤ y := by
+  cases l with
+  | nil => cases hy
+  | cons x xs =>
+    simp only [minList]
+    rcases List.mem_cons.1 hy with rfl | h
+    · exact foldl_min_le_init _ _
+    · exact foldl_min_le_mem _ _ _ h
+
+theorem minList_mem {l : List Int} (h : l ≠ []) : minList l ∈ l := by
+  cases l with
+  | nil => exact absurd rfl h
+  | cons x xs =>
+    simp only [minList]
+    rcases foldl_min_mem xs x with h | h
+    · rw [h]; simp
+    · exact List.mem_cons_of_mem _ h
+
+def Loc.OK (L : Int) (l : Loc) : Prop := l.parts ≠ [] ∧ ∀ p ∈ l.parts, p.OK L
+
+theorem Loc.OK.nonEmpty {L : Int} {l : Loc} (h : l.OK L) : l.PartsNonEmpty := fun p hp => (h.2 p hp).2.1
+
+theorem noOverlap_parts {a b : Loc} (h : locationsOverlap a b = false) :
+    ∀ p ∈ a.parts, ∀ q ∈ b.parts, partsOverlap p q = false := by
+  intro p hp q hq
+  simp only [locationsOverlap, List.any_eq_false] at h
+  have h1 := h p hp
+  simp only [Bool.not_eq_true, List.any_eq_false] at h1
+  simpa using h1 q hq
+
+theorem pairs_congr (a b : Loc) (L : Int) (ha : a.OK L) (hb : b.OK L) (h : locationsOverlap a b = false) :
+    (a.parts.flatMap fun p => b.parts.map fun q => partDistance p q L)
+      = (a.parts.flatMap fun p => b.parts.map fun q => specPartDist L p q) := by
+  have key : ∀ (as : List Part), (∀ p ∈ as, p ∈ a.parts) →
+      (as.flatMap fun p => b.parts.map fun q => partDistance p q L)
+        = (as.flatMap fun p => b.parts.map fun q => specPartDist L p q) := by
+    intro as
+    induction as with
+    | nil => intro _; rfl
+    | cons p ps ih =>
+      intro hsub
+      simp only [List.flatMap_cons]
+      rw [ih (fun x hx => hsub x (List.mem_cons_of_mem _ hx))]
+      congr 1
+      apply List.map_congr_left
+      intro q hq
+      exact partDistance_eq_spec L p q (ha.2 p (hsub p (by simp))) (hb.2 q hq)
+        (noOverlap_parts h p (hsub p (by simp)) q hq)
+  exact key a.parts (fun _ h => h)
+
+theorem start_single (l : Loc) (p : Part) (h : l.parts = [p]) : l.start = p.lo ∧ l.end = p.hi := by
+  cases l with
+  | simple x => simp [Loc.parts] at h; subst h; simp [Loc.start, Loc.end]
+  | compound ps => simp [Loc.parts] at h; subst h; simp [Loc.start, Loc.end, minList, maxList]
+
+theorem simpleDistance_single (a b : Loc) (p q : Part) (ha : a.parts = [p]) (hb : b.parts = [q]) (L : Int) :
+    simpleDistance a b L = simpleDistance (.simple p) (.simple q) L := by
+  obtain ⟨h1, h2⟩ := start_single a p ha
+  obtain ⟨h3, h4⟩ := start_single b q hb
+  unfold simpleDistance distVariants
+  rw [h1, h2, h3, h4]
+  rfl
+
+/-- the distance computed by the code is the set-of-bases distance in closed form -/
+theorem getDistance_eq_spec (a b : Loc) (L : Int) (ha : a.OK L) (hb : b.OK L) :
+    getDistance a b L = if locationsOverlap a b then 0 else specDist L a b := by
+  unfold getDistance
+  cases hov : locationsOverlap a b
+  · simp only [Bool.false_eq_true, if_false]
+    split
+    · next hmulti => rw [pairs_congr a b L ha hb hov]; rfl
+    · next hsingle =>
+      simp only [Bool.or_eq_true, decide_eq_true_eq, not_or, Nat.not_lt] at hsingle
+      have hpa : ∃ p, a.parts = [p] := by
+        match hm : a.parts with
+        | [] => exact absurd hm ha.1
+        | [p] => exact ⟨p, rfl⟩
+        | _ :: _ :: _ => rw [hm] at hsingle; simp at hsingle
+      have hqb : ∃ q, b.parts = [q] := by
+        match hm : b.parts with
+        | [] => exact absurd hm hb.1
+        | [q] => exact ⟨q, rfl⟩
+        | _ :: _ :: _ => rw [hm] at hsingle; simp at hsingle
+      obtain ⟨p, hp⟩ := hpa
+      obtain ⟨q, hq⟩ := hqb
+      rw [simpleDistance_single a b p q hp hq L]
+      have hno : partsOverlap p q = false := noOverlap_parts hov p (by simp [hp]) q (by simp [hq])
+      have := partDistance_eq_spec L p q (ha.2 p (by simp [hp])) (hb.2 q (by simp [hq])) hno
+      simp only [partDistance, hno, Bool.false_eq_true, if_false] at this
+      rw [this]
+      simp [specDist, hp, hq, minList]
+  · simp
+
+
+
+
+theorem noOverlap_disjoint {p q : Part} (_hp : p.lo < p.hi) (_hq : q.lo < q.hi) (h : partsOverlap p q = false) :
+    p.hi ≤ q.lo ∨ q.hi ≤ p.lo := by
+  simp only [partsOverlap, Part.mem, Bool.or_eq_false_iff, Bool.and_eq_false_iff, decide_eq_false_iff_not] at h
+  omega
+
+/-- the value computed by `get_distance_between_locations` is the distance of the two sets of
+    bases: 0 iff they share a base, otherwise the least number of bases strictly between a base
+    of one and a base of the other, the shorter way round on a ring -/
+theorem getDistance_isDist (a b : Loc) (L : Int) (ha : a.OK L) (hb : b.OK L) :
+    IsDist L a b (getDistance a b L) := by
+  rw [getDistance_eq_spec a b L ha hb]
+  cases hov : locationsOverlap a b
+  · right
+    have hns : ¬ a.SharesBase b := by
+      intro h
+      have := (locationsOverlap_iff a b ha.nonEmpty hb.nonEmpty).2 h
+      rw [hov] at this; cases this
+    refine ⟨hns, ?_, ?_⟩
+    · -- attained
+      have hne : (a.parts.flatMap fun p => b.parts.map fun q => specPartDist L p q) ≠ [] := by
+        obtain ⟨p, hp⟩ := List.exists_mem_of_ne_nil _ ha.1
+        obtain ⟨q, hq⟩ := List.exists_mem_of_ne_nil _ hb.1
+        intro h
+        have : specPartDist L p q ∈ (a.parts.flatMap fun p => b.parts.map fun q => specPartDist L p q) := by
+          simp only [List.mem_flatMap, List.mem_map]
+          exact ⟨p, hp, q, hq, rfl⟩
+        rw [h] at this; cases this
+      have hm := minList_mem hne
+      simp only [List.mem_flatMap, List.mem_map] at hm
+      obtain ⟨p, hp, q, hq, hpq⟩ := hm
+      have hno := noOverlap_parts hov p hp q hq
+      obtain ⟨i, j, hi, hj, hbt⟩ := between_attained L p q (ha.2 p hp) (hb.2 q hq)
+        (noOverlap_disjoint (ha.2 p hp).2.1 (hb.2 q hq).2.1 hno)
+      refine ⟨i, j, ?_, ?_, ?_⟩
+      · simp only [Loc.mem, List.any_eq_true]; exact ⟨p, hp, hi⟩
+      · simp only [Loc.mem, List.any_eq_true]; exact ⟨q, hq, hj⟩
+      · simp only [Bool.false_eq_true, if_false, specDist]; rw [hbt, hpq]
+    · intro i j hi hj
+      simp only [Loc.mem, List.any_eq_true] at hi hj
+      obtain ⟨p, hp, hi⟩ := hi
+      obtain ⟨q, hq, hj⟩ := hj
+      have hno := noOverlap_parts hov p hp q hq
+      have h1 := between_lower L p q (ha.2 p hp) (hb.2 q hq)
+        (noOverlap_disjoint (ha.2 p hp).2.1 (hb.2 q hq).2.1 hno) i j hi hj
+      have h2 : specDist L a b ≤ specPartDist L p q := by
+        apply minList_le_of_mem
+        simp only [List.mem_flatMap, List.mem_map]
+        exact ⟨p, hp, q, hq, rfl⟩
+      simp only [Bool.false_eq_true, if_false]
+      omega
+  · left
+    exact ⟨(locationsOverlap_iff a b ha.nonEmpty hb.nonEmpty).1 hov, by simp⟩
+
+theorem between_comm (L i j : Int) : between L i j = between L j i := by
+  simp only [between, lineBetween, ringBetween, iabs_def, Int.min_def]
+  grind
+
+theorem SharesBase_comm (a b : Loc) : a.SharesBase b ↔ b.SharesBase a := by
+  constructor <;> (rintro ⟨i, h1, h2⟩; exact ⟨i, h2, h1⟩)
+
+theorem IsDist.symm {L : Int} {a b : Loc} {d : Int} (h : IsDist L a b d) : IsDist L b a d := by
+  rcases h with ⟨hs, hd⟩ | ⟨hns, ⟨i, j, hi, hj, hb⟩, hlow⟩
+  · left; exact ⟨(SharesBase_comm a b).1 hs, hd⟩
+  · right
+    refine ⟨fun h => hns ((SharesBase_comm a b).2 h), ⟨j, i, hj, hi, by rw [between_comm]; exact hb⟩, ?_⟩
+    intro i' j' hi' hj'
+    rw [between_comm]
+    exact hlow j' i' hj' hi'
+
+theorem IsDist.unique {L : Int} {a b : Loc} {d d' : Int} (h : IsDist L a b d) (h' : IsDist L a b d') :
+    d = d' := by
+  rcases h with ⟨hs, hd⟩ | ⟨hns, ⟨i, j, hi, hj, hb⟩, hlow⟩
+  · rcases h' with ⟨_, hd'⟩ | ⟨hns', _⟩
+    · omega
+    · exact absurd hs hns'
+  · rcases h' with ⟨hs', _⟩ | ⟨_, ⟨i', j', hi', hj', hb'⟩, hlow'⟩
+    · exact absurd hs' hns
+    · have h1 := hlow i' j' hi' hj'
+      have h2 := hlow' i j hi hj
+      omega
+
+theorem getDistance_comm (a b : Loc) (L : Int) (ha : a.OK L) (hb : b.OK L) :
+    getDistance a b L = getDistance b a L :=
+  (getDistance_isDist a b L ha hb).unique (getDistance_isDist b a L hb ha).symm
+
+
+theorem getDistance_simple (a b : Part) (w : Int) :
+    getDistance (.simple a) (.simple b) w = partDistance a b w := by
+  simp [getDistance, partDistance, locationsOverlap, Loc.parts]
+
+theorem partDistance_line (a b : Part) (ha : a.lo < a.hi) (hb : b.lo < b.hi) :
+    partDistance a b 0 = lineGap a b := by
+  simp only [partDistance, simpleDistance, partsOverlap, Part.mem, distVariants, iabs, Loc.start,
+    Loc.end, lineGap]
   simp only [Bool.or_eq_true, Bool.and_eq_true, decide_eq_true_eq]
   simp only [Int.min_def]
   grind
+
+theorem getDistance_simple_line (a b : Part) (ha : a.lo < a.hi) (hb : b.lo < b.hi) :
+    getDistance (.simple a) (.simple b) 0 = lineGap a b := by
+  rw [getDistance_simple, partDistance_line a b ha hb]
+
+
+theorem sharesPts_iff (a b : Loc) : sharesPts a b = true ↔ a.SharesBase b := by
+  unfold Loc.SharesBase sharesPts
+  constructor
+  · intro h
+    rw [List.any_eq_true] at h
+    obtain ⟨i, _, hi⟩ := h
+    simp only [Bool.and_eq_true] at hi
+    exact ⟨i, hi.1, hi.2⟩
+  · rintro ⟨i, ha, hb⟩
+    simp only [Loc.mem, List.any_eq_true, Part.mem_iff] at ha hb
+    obtain ⟨p, hp, hp1, hp2⟩ := ha
+    obtain ⟨q, hq, hq1, hq2⟩ := hb
+    rw [List.any_eq_true]
+    by_cases hc : p.lo ≤ q.lo
+    · refine ⟨q.lo, by simp only [List.mem_append, List.mem_map]; exact Or.inr ⟨q, hq, rfl⟩, ?_⟩
+      simp only [Bool.and_eq_true, Loc.mem, List.any_eq_true, Part.mem_iff]
+      exact ⟨⟨p, hp, by omega, by omega⟩, ⟨q, hq, by omega, by omega⟩⟩
+    · refine ⟨p.lo, by simp only [List.mem_append, List.mem_map]; exact Or.inl ⟨p, hp, rfl⟩, ?_⟩
+      simp only [Bool.and_eq_true, Loc.mem, List.any_eq_true, Part.mem_iff]
+      exact ⟨⟨p, hp, by omega, by omega⟩, ⟨q, hq, by omega, by omega⟩⟩
+
+theorem sharesPts_eq_overlap (a b : Loc) (ha : a.PartsNonEmpty) (hb : b.PartsNonEmpty) :
+    sharesPts a b = locationsOverlap a b := by
+  rw [Bool.eq_iff_iff, sharesPts_iff, locationsOverlap_iff a b ha hb]
+
+/-- the code's distance equals the executable set-of-bases distance -/
+theorem getDistance_eq_specFull (a b : Loc) (L : Int) (ha : a.OK L) (hb : b.OK L) :
+    getDistance a b L = specDistFull L a b := by
+  rw [getDistance_eq_spec a b L ha hb, specDistFull, sharesPts_eq_overlap a b ha.nonEmpty hb.nonEmpty]
 
 end ASV
